@@ -137,6 +137,9 @@ func c20AttSeq(b *fw.B, seqNo int) {
 	}
 	curEpoch := common.Epoch(0)
 	nOps := 10 + b.Rng.IntN(50)
+	var spamAtt added
+	var afterSpam *added
+	spamLeft := 0
 	for op := 0; op < nOps; op++ {
 		r := b.Rng.IntN(10)
 		switch {
@@ -144,10 +147,24 @@ func c20AttSeq(b *fw.B, seqNo int) {
 			var att *phase0.Attestation
 			var comm int
 			dup := false
-			if len(history) > 0 && b.Rng.IntN(6) == 0 {
+			if spamLeft > 0 {
+				// a burst of re-deliveries of one aggregate (more than any internal cap on remembered duplicates)
+				att, comm = spamAtt.att, spamAtt.comm
+				dup = true
+				spamLeft--
+				if spamLeft == 0 {
+					x := spamAtt
+					afterSpam = &x
+				}
+			} else if len(history) > 0 && b.Rng.IntN(6) == 0 {
 				h := history[b.Rng.IntN(len(history))]
 				att, comm = h.att, h.comm
 				dup = true
+				if b.Rng.IntN(4) == 0 {
+					spamAtt, spamLeft = h, 10+b.Rng.IntN(4)
+					nOps += spamLeft
+					b.Inc("att_redelivery_bursts")
+				}
 			} else {
 				comm = b.Rng.IntN(nComm)
 				epoch := curEpoch + common.Epoch(b.Rng.IntN(3))
@@ -155,6 +172,11 @@ func c20AttSeq(b *fw.B, seqNo int) {
 					epoch--
 				}
 				data := mkData(epoch, comm, b.Rng.IntN(len(roots)))
+				if afterSpam != nil {
+					// right after a burst: another aggregate for the very same data, most likely with new participants
+					comm, data = afterSpam.comm, afterSpam.att.Data
+					afterSpam = nil
+				}
 				sel := make([]bool, len(committees[comm]))
 				mode := b.Rng.IntN(5)
 				if mode == 0 {
